@@ -74,7 +74,11 @@ ASSUMPTIONS = [
     "only (their documented domain); linear independence / orthonormality of "
     "the returned eigenvectors is measured (label) but not asserted",
     "update_inv_sum_diag is called with matrices whose Hermitian part is "
-    "positive definite and d >= 0, so every rank-one step is invertible",
+    "positive definite and d >= 0, so every rank-one step is invertible; its "
+    "error is judged relative to max(|inv A|, |inv(A+D)|) at 1e-13 times the "
+    "worst condition number of the intermediate matrices "
+    "A + diag(d_1..d_j,0..0) (Sherman-Morrison subtracts corrections from "
+    "inv A)",
     "get_principal_component_matrix: 'rank = number of kept components' is "
     "asserted only when the k x k block of right singular vectors it multiplies "
     "with is well conditioned (sigma_min >= 1e-3) and the k-th singular value "
@@ -705,7 +709,14 @@ def _check_invupd(case, ctx):
     tags = dict(part="invupd", n=n, cplx=cplx, dmode=case["dmode"],
                 hermitian=(skew == 0.0))
     B = A + np.diag(d)
-    kA, kB = float(np.linalg.cond(A)), float(np.linalg.cond(B))
+    kA = float(np.linalg.cond(A))
+    # the routine passes through inv(A + diag(d_1..d_j, 0..0)), j = 1..n: its
+    # rounding error is governed by the worst conditioned of these
+    kmax = kA
+    for j in range(1, n + 1):
+        dj = d.copy()
+        dj[j:] = 0.0
+        kmax = max(kmax, float(np.linalg.cond(A + np.diag(dj))))
     ctx.label("invupd", _size_label("invupd", n),
               _kappa_label("invupd", kA),
               "invupd:" + ("complex" if cplx else "real"),
@@ -723,7 +734,7 @@ def _check_invupd(case, ctx):
     # rounding error is relative to |inv(A)| (>= |inv(B)| up to the skew part)
     scale = max(float(np.linalg.norm(ref, 2)), float(np.linalg.norm(invA, 2)))
     ctx.close("invupd_eq_true_inverse", _amax(new - ref) / scale,
-              1e-13 * max(kA, kB), "d=%r" % (d.tolist(),), tags)
+              1e-13 * kmax, "d=%r" % (d.tolist(),), tags)
 
 
 # ----------------------------------------------------------------------------
